@@ -677,3 +677,25 @@ Definition reviewed_panic_sites : list (string * string * string * string) := [
   ("lib/j5reflect/type_array.go", "newLeafArrayField", """list value is nil for leaf""",
    "the list comes from Message.Mutable on a repeated field, which is never nil")
 ].
+
+(* Every type assertion WITHOUT the comma-ok form in the same files (the translator lists them as
+   SwitchGen.unchecked_type_assertions): a failing one is a runtime panic "interface conversion", i.e.
+   an implicit panic site that the model's total functions cannot show.  Reviewed: (file, function,
+   expression, why it cannot fail on the decode path).  proofs/CodecDecProofs.v requires every site
+   the translator finds to be listed here. *)
+Definition reviewed_type_assertions : list (string * string * string * string) := [
+  ("lib/j5reflect/type_array.go", "newLeafArrayField", "schema.Schema.(*j5schema.ScalarSchema)",
+   "inside the arm `case *j5schema.ScalarSchema` of a type switch on the same expression");
+  ("lib/j5reflect/type_object.go", "NewContainerElement", "field.NewElement().(ObjectField)",
+   "arrayOfObjectField is built by newMessageArrayField only for an item schema of *j5schema.ObjectField, whose factory (objectFieldFactory) builds an ObjectField; not called by the decoder (it uses NewObjectElement)");
+  ("lib/j5reflect/type_object.go", "NewObjectElement", "field.NewElement().(ObjectField)",
+   "arrayOfObjectField: the element factory chosen with the wrapper type by the same type switch on the item schema builds an ObjectField");
+  ("lib/j5reflect/type_object.go", "NewObjectElement", "val.(ObjectField)",
+   "mapOfObjectField: same pairing of wrapper type and element factory in newMessageMapField");
+  ("lib/j5reflect/type_oneof.go", "NewContainerElement", "field.NewElement().(OneofField)",
+   "arrayOfOneofField: item schema *j5schema.OneofField, factory builds a OneofField; not called by the decoder");
+  ("lib/j5reflect/type_oneof.go", "NewOneofElement", "field.NewElement().(OneofField)",
+   "arrayOfOneofField: wrapper type and element factory chosen by the same type switch");
+  ("lib/j5reflect/type_oneof.go", "NewOneofElement", "val.(OneofField)",
+   "mapOfOneofField: same pairing in newMessageMapField")
+].
